@@ -378,7 +378,10 @@ impl<'a> CompilerState<'a> {
 
         // Create collected literal variables in memory
         self.literal_counter += res.1.len();
-        for k in &res.1 {
+        // The literals were collected in a HashMap: insert them in a fixed order
+        let mut literals: Vec<(&String, &String)> = res.1.iter().collect();
+        literals.sort_by(|a, b| a.0.len().cmp(&b.0.len()).then_with(|| a.0.cmp(b.0)));
+        for k in literals {
             let vb = k.1.as_bytes();
             let mut v = Vec::<VariableValue>::new();
             for c in vb.iter() {
@@ -543,7 +546,10 @@ impl<'a> CompilerState<'a> {
 
         // Create collected literal variables in memory
         self.literal_counter += res.1.len();
-        for k in &res.1 {
+        // The literals were collected in a HashMap: insert them in a fixed order
+        let mut literals: Vec<(&String, &String)> = res.1.iter().collect();
+        literals.sort_by(|a, b| a.0.len().cmp(&b.0.len()).then_with(|| a.0.cmp(b.0)));
+        for k in literals {
             let vb = k.1.as_bytes();
             let mut v = Vec::<VariableValue>::new();
             for c in vb.iter() {
